@@ -134,6 +134,14 @@ func loadAll(repo string, overlay map[string][]byte) (*Ctx, error) {
 	if err := c.prepareLemmas(); err != nil {
 		return nil, fmt.Errorf("contracts: %v", err)
 	}
+	// implementations must promise what the interface contracts promise
+	errs, notes := checkImplements(c)
+	if len(errs) > 0 {
+		return nil, fmt.Errorf("contracts: interface refinement: %s", strings.Join(errs, "; "))
+	}
+	for _, n := range notes {
+		c.notes["interface refinement: "+n] = true
+	}
 	return c, nil
 }
 
